@@ -385,6 +385,7 @@ func compatCmd(a Args) {
 		compatGroup(s, g)
 	}
 	boundsMatrix(s)
+	enumKindMatrix(s)
 	for i := 0; i < n/20+2; i++ {
 		recursiveGroup(s, g)
 	}
@@ -589,5 +590,38 @@ func dropEmptyRanges(t *hx.Ty) {
 	}
 	for _, o := range t.Objs {
 		dropEmptyRanges(o.Ty)
+	}
+}
+
+// enumKindMatrix: string enums against integer enums whose values are the code points of the
+// strings (Go converts an integer to a one-rune string, so a sloppy kind check lets them through),
+// both directions, at four positions. A different base kind is always incompatible.
+func enumKindMatrix(s *compatSink) {
+	strSets := [][]string{{"1"}, {"A"}, {"1", "A"}, {"1", "A", "on"}, {"\x05"}}
+	intSets := [][]string{{"49"}, {"65"}, {"49", "65"}, {"5"}, {"49", "7"}}
+	embed := []func(*hx.Ty) *hx.Ty{
+		func(t *hx.Ty) *hx.Ty { return t },
+		func(t *hx.Ty) *hx.Ty {
+			return &hx.Ty{T: "obj", ID: "E", Props: []hx.NamedProp{{Name: "e", P: &hx.Prop{Ty: t}}}}
+		},
+		func(t *hx.Ty) *hx.Ty { return &hx.Ty{T: "list", Item: t} },
+		func(t *hx.Ty) *hx.Ty { return &hx.Ty{T: "map", K: &hx.Ty{T: "str"}, V: t} },
+	}
+	for _, ss := range strSets {
+		for _, is := range intSets {
+			for _, em := range embed {
+				se := em(&hx.Ty{T: "enumStr", Vals: ss})
+				ie := em(&hx.Ty{T: "enumInt", Vals: is})
+				for _, pair := range [][2]*hx.Ty{{se, ie}, {ie, se}} {
+					r, id := s.emitCompat(pair[0], pair[1], "enum-kinds", false)
+					switch {
+					case r.R == "panic":
+						s.finding(Finding{Prop: "C15", What: "ValidateCompatibility panicked on enums of different kinds: " + r.Msg, Cases: []int{id}, Schema: pair[0]})
+					case r.R == "ok":
+						s.finding(Finding{Prop: "C15", What: "an enum of a different base kind was accepted", Cases: []int{id}, Schema: pair[0]})
+					}
+				}
+			}
+		}
 	}
 }
